@@ -35,6 +35,22 @@ def main():
                 log(chk.build.output[-3000:])
         driver = Driver()
         known_lines = mod.run(chk, driver, tier) or []
+        # a source file this property is anchored in changed since the recorded baseline: not an alarm, but the place where
+        # model and code are most likely to have drifted gets a deeper run (two more rounds with fresh seeds)
+        try:
+            import anchor_hashes
+            changed = anchor_hashes.changed_files(pid)
+        except Exception:
+            changed = []
+        chk.extra["anchor_files_changed"] = changed
+        if changed and tier == "quick" and not chk.violations and not a.no_build:
+            import random
+            for extra_round in (1, 2):
+                if chk.violations:
+                    break
+                log("anchor file(s) %s changed since the baseline: extra round %d" % (changed, extra_round))
+                chk.rng = random.Random(chk.seed + 1000 * extra_round)
+                mod.run(chk, driver, tier)
         broken = (chk.build is not None and not chk.build.ok) or chk.disagreements
         if broken and not chk.violations:
             log("obligation or correspondence broken: searching the implementation for a failing input")
